@@ -3,5 +3,5 @@
    collide (array "a" element 0 = size slot of array "a\0"), so Refines must be violated.  Shows that
    the universe and the invariant can tell a colliding key scheme from a collision-free one. *)
 EXTENDS Containers
-ViewNoHist == <<store, arr, dict, var, Len(hist)>>
+ViewNoHist == <<store, arr, dict, var, snap, sideal, Len(hist)>>
 ====
